@@ -230,8 +230,9 @@ def pack_geometry(Xs):
 def rel_err(A, R):
     R = np.asarray(R)
     A = np.asarray(A).reshape(R.shape)
-    scale = max(float(np.max(np.abs(R))) if R.size else 0.0, 1e-300)
-    return float(np.max(np.abs(A - R))) / scale if R.size else 0.0, scale
+    scale = float(np.max(np.abs(R))) if R.size else 0.0
+    # geometry and data of the alphabets are O(1): a reference below 1e-6 is judged on an absolute scale (rounding noise around an exact zero)
+    return float(np.max(np.abs(A - R))) / max(scale, 1e-6) if R.size else 0.0, scale
 
 
 # ---------------------------------------------------------------------------------------------------
